@@ -687,8 +687,9 @@ func trafficOracle(node *scanNode, kvs []KV, log []string, complete bool) string
 
 // ---------------------------------------------------------------- generators
 
-var keyPool = []string{"", "a", "a0", "a1", "ab", "ab0", "ab1", "ac", "b", "b0", "ba", "ba1", "bb", "c", "c1", "d", "e", "f", "g", "h"}
-var keyLits = []string{"", "a", "ab", "b", "ba", "c", "z"}
+// keys and literals ending in the byte 0xff: the end of such a prefix region needs a carry ("a\xff…" ends before "b")
+var keyPool = []string{"", "a", "a0", "a1", "ab", "ab0", "ab1", "ac", "b", "b0", "ba", "ba1", "bb", "c", "c1", "d", "e", "f", "g", "h", "a\xff", "a\xff0", "a\xff\xff"}
+var keyLits = []string{"", "a", "ab", "b", "ba", "c", "z", "a\xff"}
 var valPool = []string{"x", "x", "y", "y", "1", "0", "2", "", "zzz"}
 
 func genStore(r *Rand, size int) []KV {
@@ -798,6 +799,7 @@ var fixedPreds = []string{
 	"10 / int(value) > 1", "key ^= 'a' & 10 / int(value) > 1", "key between value and 'z'", "key > 'a' and key between value and 'z'",
 	"key in ('a', 'b', 'c') & 10 / int(value) > 1", "key between 'b' and 'a'", "!(key = 'a')", "!(value = 'x')", "key != 'a'",
 	"key <= ''", "key = ''", "key >= ''", "key ^= 'a' and value in ('x', '1')", "key = 'a' and value = 'x'",
+	"key ^= 'a\xff'", "key ^= 'a\xff\xff'", "key ^= '\xff'", "key ^= 'a\xff' & value != 'x'", "key > 'a\xff' & key < 'b'",
 }
 
 var badStatements = []string{
@@ -826,7 +828,14 @@ func genKeyExpr(r *Rand, failRate int) exprSpec {
 		// int of a text that is not a number is an error by the README and 0 in the engine: either way the division fails
 		return exprSpec{"str(10 / int('x'))", func(string) (string, bool) { return "", false }}
 	}
-	switch r.Intn(8) {
+	switch r.Intn(9) {
+	case 8:
+		// `key` inside a KEY expression: there is no key yet, it reads as the empty text for every pair
+		// (never the key of the pair written before)
+		if r.Bool() {
+			return exprSpec{"key + " + q1(k), func(string) (string, bool) { return k, true }}
+		}
+		return exprSpec{q1(k) + " + upper(key)", func(string) (string, bool) { return k, true }}
 	case 0:
 		return exprSpec{"upper(" + q1(k) + ")", func(string) (string, bool) { return strings.ToUpper(k), true }}
 	case 1:
@@ -1211,6 +1220,31 @@ func (pe *planEnv) rejectedOracle(q string, kvs []KV, bs int) {
 		pe.col.Hist("rejected-by-BuildPlan")
 		if len(eng.Store.Log) != 0 {
 			pe.find("property", "rejected-statement-touches-storage", caseText(q, kvs, bs, "next", -1), "", strings.Join(eng.Store.Log, ";"), "no storage call", []string{"C13"})
+		}
+		// asking the SAME Optimizer again must not turn the rejected statement into a plan that writes
+		st := NewRefStore(kvs)
+		out, panicked := safely(func() string {
+			opt := kvql.NewOptimizer(q)
+			if _, err := opt.BuildPlan(st); err == nil {
+				return "accepted-first"
+			}
+			plan, err := opt.BuildPlan(st)
+			if err != nil {
+				return "rejected-again"
+			}
+			ctx := kvql.NewExecuteCtx()
+			for i := 0; i < 64; i++ {
+				row, err := plan.Next(ctx)
+				if err != nil || row == nil {
+					break
+				}
+			}
+			return "accepted-on-retry"
+		})
+		if panicked {
+			pe.find("crash", "rejected-statement-retry-panics", caseText(q, kvs, bs, "next", -1), "", "panic on the second BuildPlan of one Optimizer", "rejected again", []string{"C06", "C13"})
+		} else if out == "accepted-on-retry" && len(st.Log) != 0 {
+			pe.find("property", "rejected-statement-touches-storage-on-retry", caseText(q, kvs, bs, "next", -1), "", strings.Join(st.Log, ";"), "no storage call", []string{"C13"})
 		}
 	}
 }
